@@ -1977,6 +1977,170 @@ func genShorten(i int, r *core.Rand) caseDesc {
 	return c
 }
 
+// ---------- rate engine: high contention on an emptying bucket ----------
+
+type ctnPassed struct{ n *int64 }
+
+func (ctnPassed) Name() string { return "c18-contention-passed" }
+func (p ctnPassed) PostReadCallHeader(erpc.ReadCtx) *erpc.Status {
+	atomic.AddInt64(p.n, 1)
+	return nil
+}
+func (p ctnPassed) PostReadPushHeader(erpc.ReadCtx) *erpc.Status {
+	atomic.AddInt64(p.n, 1)
+	return nil
+}
+
+// runContention lets many takers arrive at the same bucket in the same instant, with NO refill in the window:
+// admitted per round <= capacity, exactly (no slack: the slack of the statement is per refill tick, and a round
+// in which the tick counter moved is dropped as inconclusive). Every round uses a bucket of its own (one
+// per-handler limit per round, all created full at once; the interval is the longest the limiter supports, 1 s,
+// and the buckets are reused after a pause that lets each of them see its tick). mode "direct": the admission
+// hook of the real plug-in object (PostReadCallHeader / PostReadPushHeader) driven from c.G goroutines released
+// by a spin barrier; mode "sessions": one call per real session, c.G sessions, released the same way.
+func runContention(c caseDesc) *report {
+	rp := &report{extra: map[string]interface{}{}}
+	const buckets = 400
+	capacity := int64(c.MaxQPS)
+	cfg := overloader.LimitConfig{QPSInterval: time.Second}
+	methods := make([]string, buckets)
+	for i := range methods {
+		methods[i] = fmt.Sprintf("/ctn/m%d", i)
+		cfg.MaxHandlerQPS = append(cfg.MaxHandlerQPS, overloader.HandlerLimit{ServiceMethod: methods[i], MaxQPS: int32(c.MaxQPS)})
+	}
+	ov := overloader.New(cfg)
+	defer atomic.AddInt64(&liveParked, buckets) // their tickers stay alive at one tick per second
+	var passed int64
+	var links []*bed.Link
+	if c.Mode == "sessions" {
+		srv := erpc.NewPeer(erpc.PeerConfig{}, ov, ctnPassed{&passed})
+		srv.SetUnknownCall(func(ctx erpc.UnknownCallCtx) (interface{}, *erpc.Status) { return nil, nil })
+		cli := erpc.NewPeer(erpc.PeerConfig{})
+		defer func() {
+			for _, l := range links {
+				l.CA.Sever(false)
+			}
+			srv.Close()
+			cli.Close()
+		}()
+		for i := 0; i < c.G; i++ {
+			l, err := bed.Connect(cli, srv, erpc.DefaultProtoFunc(), erpc.DefaultProtoFunc(), nil)
+			if err != nil {
+				rp.inconclusive = err.Error()
+				return rp
+			}
+			links = append(links, l)
+		}
+	}
+	var rounds, dropped, exceeded, maxAdmitted, exhausted int64
+	var firstDetail string
+	lastPass := time.Now()
+	for r := 0; r < c.Rounds; r++ {
+		if r > 0 && r%buckets == 0 {
+			// every bucket has been emptied: let each see one refill (1 s interval). Sensitivity only - a bucket that
+			// is not full again just admits less.
+			if d := 1200*time.Millisecond - time.Since(lastPass); d > 0 {
+				time.Sleep(d)
+			}
+			lastPass = time.Now()
+		}
+		m := methods[r%buckets]
+		var admitted int64
+		var start int32
+		var wg sync.WaitGroup
+		p0 := atomic.LoadInt64(&passed)
+		tb := overloader.VerifTicks()
+		for g := 0; g < c.G; g++ {
+			wg.Add(1)
+			go func(g int) {
+				defer wg.Done()
+				if c.Mode == "sessions" {
+					for atomic.LoadInt32(&start) == 0 {
+					}
+					var res []byte
+					links[g].A.Call(m, "x", &res).Reply()
+					return
+				}
+				ctx := fakeCtx{m: m}
+				for atomic.LoadInt32(&start) == 0 {
+				}
+				for k := 0; k < c.Burst; k++ {
+					var st *erpc.Status
+					if (g+k)&1 == 0 {
+						st = ov.PostReadCallHeader(ctx)
+					} else {
+						st = ov.PostReadPushHeader(ctx)
+					}
+					if st.OK() {
+						atomic.AddInt64(&admitted, 1)
+					}
+				}
+			}(g)
+		}
+		runtime.Gosched()
+		atomic.StoreInt32(&start, 1)
+		if !waitWG(&wg, watchdog) {
+			rp.inconclusive = fmt.Sprintf("round %d did not finish", r)
+			return rp
+		}
+		if c.Mode == "sessions" {
+			admitted = atomic.LoadInt64(&passed) - p0
+		}
+		if overloader.VerifTicks() != tb {
+			dropped++ // a refill tick (of any bucket) inside the window: this round says nothing
+			continue
+		}
+		rounds++
+		if admitted > maxAdmitted {
+			maxAdmitted = admitted
+		}
+		if admitted >= capacity {
+			exhausted++
+		}
+		if admitted > capacity {
+			exceeded++
+			if firstDetail == "" {
+				firstDetail = fmt.Sprintf("round %d: %d admissions from one bucket of capacity %d with no refill tick in the window (%d concurrent takers, %s)", r, admitted, capacity, c.G, c.Mode)
+			}
+		}
+	}
+	rp.evals = rounds
+	if exceeded > 0 {
+		rp.add("burst-over-capacity", fmt.Sprintf("%s; %d of %d rounds over capacity, most admitted in one round %d", firstDetail, exceeded, rounds, maxAdmitted), nil)
+	}
+	if rounds*2 < int64(c.Rounds) && exceeded == 0 {
+		rp.inconclusive = fmt.Sprintf("only %d of %d rounds without a refill tick in the window", rounds, c.Rounds)
+	}
+	rp.admitted = maxAdmitted
+	rp.extra["capacity"], rp.extra["takers"], rp.extra["mode"] = capacity, c.G, c.Mode
+	rp.extra["rounds_judged"], rp.extra["rounds_dropped_for_a_tick"], rp.extra["rounds_exhausting_the_bucket"] = rounds, dropped, exhausted
+	rp.extra["rounds_over_capacity"], rp.extra["max_admitted_in_a_round"] = exceeded, maxAdmitted
+	core.Add("rate_contention_cases", 1)
+	core.Add("rate_contention_rounds", rounds)
+	core.Add("rate_contention_rounds_dropped_for_a_tick", dropped)
+	core.Add("rate_contention_rounds_exhausting_the_bucket", exhausted)
+	rp.sig = fmt.Sprintf("rate/%s/cap%d", c.HClass, c.MaxQPS)
+	rp.nontrivial = exhausted > 0
+	return rp
+}
+
+func genContention(i int, r *core.Rand) caseDesc {
+	c := caseDesc{Engine: "rate", Seed: int64(r.Uint64() >> 1)}
+	c.MaxQPS = []int{5, 10, 20, 8}[i%4]
+	if i%4 == 3 {
+		c.Mode, c.G, c.Rounds, c.Burst = "sessions", 32, 400, 1
+		c.HClass = "contention-sessions/s32"
+	} else {
+		c.Mode, c.G, c.Rounds, c.Burst = "direct", []int{32, 64, 48}[i%3], 3000, 3
+		c.HClass = fmt.Sprintf("contention-direct/g%d", c.G)
+	}
+	if *tier == "thorough" {
+		c.Rounds *= 4
+	}
+	c.Class = "rate/" + c.HClass
+	return c
+}
+
 // fakeCtx lets the header hook be driven directly: the limiter only asks for the service method.
 type fakeCtx struct {
 	erpc.ReadCtx
@@ -2130,6 +2294,8 @@ func execute(id string, c caseDesc) {
 		rp = runSeq(c)
 	case c.Engine == "conn":
 		rp = runConc(c)
+	case strings.HasPrefix(c.HClass, "contention-"):
+		rp = runContention(c)
 	case strings.HasPrefix(c.HClass, "update-interval-shorter/"):
 		rp = runShorten(c)
 	case strings.HasPrefix(c.HClass, "update-"):
@@ -2259,6 +2425,15 @@ func main() {
 	}
 	for i := 0; i < nRate; i++ {
 		jobs = append(jobs, job{fmt.Sprintf("rate%04d", i), genRate(i, r)})
+	}
+	// last in every process: they leave hundreds of one-per-second tickers behind
+	nCtn := 8
+	if *tier == "thorough" {
+		nCtn = 64
+	}
+	rc := core.NewRand(*seed, 184)
+	for i := 0; i < nCtn; i++ {
+		jobs = append(jobs, job{fmt.Sprintf("ctn%04d", i), genContention(i, rc)})
 	}
 	for i, j := range jobs {
 		if i%*nbatch != *batch {
